@@ -1,9 +1,13 @@
 //! Property workloads + monitors. One binary, one sub-command per property; the driver
 //! (`/verif/check`) runs it as sharded child processes and merges the per-shard reports.
 
+mod c04;
+mod c10;
 mod common;
 mod core_props;
 mod derived;
+mod io_props;
+mod mem_props;
 mod universe;
 
 use common::{Ctx, Tier};
@@ -49,6 +53,16 @@ fn main() {
 		"C01" => core_props::c01(&ctx),
 		"C02" => core_props::c02(&ctx),
 		"C03" => core_props::c03(&ctx),
+		"C04" => c04::c04(&ctx),
+		"C07" => io_props::c07(&ctx),
+		"C08" => io_props::c08(&ctx),
+		"C09" => mem_props::c09(&ctx),
+		"C10" => c10::c10(&ctx),
+		"C11" => mem_props::c11(&ctx),
+		"C12" => mem_props::c12(&ctx),
+		"C14" => io_props::c14(&ctx),
+		"C18" => io_props::c18(&ctx),
+		"C19" => io_props::c19(&ctx),
 		p => {
 			eprintln!("unknown property {p}");
 			std::process::exit(3);
